@@ -508,6 +508,7 @@ def to_bytes(interp, x, length=1, byteorder="big", *, signed=False):
     x = strip(x)
     if not isinstance(length, int):
         raise Unsupported("to_bytes with symbolic length")
+    signed = interp.truth(signed)  # e.g. signed=value < 0 with a symbolic value: both cases are explored
     ok = fits(x, length, bool(signed))
     if not interp.truth(ok):
         raise PyRaise(OverflowError, None, "int too big to convert")
